@@ -922,9 +922,15 @@ impl rustc_driver::Callbacks for Cb {
         let leaves_j: Vec<String> = leaves.iter().map(|i| i.to_string()).collect();
 
         let adts: Vec<String> = cx.adts.iter().map(|(k, v)| format!("{}:{}", js(k), v)).collect();
+        let root_file = tcx
+            .sess
+            .local_crate_source_file()
+            .map(|p| format!("{:?}", p))
+            .unwrap_or_default();
         let out = format!(
-            "{{\"crate\":{},\"is_bin\":{},\"is_test\":{},\"fns\":[{}],\"adts\":{{{}}},\"unsafe\":[{}],\"impls\":[{}],\"graph\":{{\"nodes\":[{}],\"edges\":[{}],\"leaves\":[{}],\"roots\":[{}]}}}}",
+            "{{\"crate\":{},\"root\":{},\"is_bin\":{},\"is_test\":{},\"fns\":[{}],\"adts\":{{{}}},\"unsafe\":[{}],\"impls\":[{}],\"graph\":{{\"nodes\":[{}],\"edges\":[{}],\"leaves\":[{}],\"roots\":[{}]}}}}",
             js(&krate),
+            js(&root_file),
             is_bin,
             is_test,
             fns.join(","),
